@@ -91,12 +91,14 @@ pub fn run(ctx: &Ctx) {
             for (fi, f) in framings.iter().enumerate() {
                 let want = f.reference(&plain);
                 let n = want.len();
-                for c in 0..=n + 2 {
+                // every capacity up to len+2, plus generous slack (a writer that scribbles behind its output
+                // is only visible when room is left there)
+                for c in (0..=n + 2).chain([n + 15, n + 16, n + 17, n + 40]) {
                     for at_end in [true, false] {
                         calls.fetch_add(1, Ordering::Relaxed);
                         let order = (si as u64) << 32 | (vi as u64) << 20 | (fi as u64) << 16 | (c as u64) << 1 | at_end as u64;
                         let case = || json!({"shape": s, "value": v, "framing": f.name(), "capacity": c, "guard_at_end": at_end, "output_len": n});
-                        let r = with_arena(n + 64, |a| {
+                        let r = with_arena(n + 128, |a| {
                             let usable = a.usable();
                             a.window().fill(CANARY);
                             let mut cs = Vec::with_capacity(256);
